@@ -170,6 +170,9 @@ func genMsg(r *Rng, c *SrvConf, h *host, xid uint32) (MsgSpec, string) {
 }
 
 // genMsgKind: as genMsg, with the kind of message fixed when forced != "".
+// otherHosts: the hosts of the running script (so that forged identifiers can name a host that holds a dynamic lease).
+var otherHosts []*host
+
 func genMsgKind(r *Rng, c *SrvConf, h *host, xid uint32, forced string) (MsgSpec, string) {
 	m := MsgSpec{MAC: h.mac, Xid: xid, Flags: h.flags, Cid: h.cid}
 	if r.Chance(5) {
@@ -226,6 +229,11 @@ func genMsgKind(r *Rng, c *SrvConf, h *host, xid uint32, forced string) (MsgSpec
 		if len(c.Clients) > 0 && r.Bool() {
 			cl := c.Clients[r.Intn(len(c.Clients))]
 			victim, vip = cl.MAC, cl.IP
+		} else if len(otherHosts) > 1 && r.Chance(60) { // another host of this script, possibly holding a dynamic lease right now
+			o := otherHosts[r.Intn(len(otherHosts))]
+			if o != h {
+				victim, vip = o.mac, o.lastOff
+			}
 		}
 		// identities somebody might derive from another host's hardware address: the server's internal
 		// namespace, RFC 2132 "type 1" (01 + address), the bare address, other hardware types
@@ -310,6 +318,7 @@ func srvScript(t *testing.T, r *Rng, s *Stream, c *SrvConf, replaySteps []script
 	s.Op(cfgLine, "ok", false)
 	synctest.Wait()
 	hosts := genHosts(r, c)
+	otherHosts = hosts
 	mon := NewSrvMonitor(c, s, cfgLine)
 	mon.respTable = env.Resp
 	// ARP responders: foreign hosts sitting on some pool addresses
@@ -339,7 +348,9 @@ func srvScript(t *testing.T, r *Rng, s *Stream, c *SrvConf, replaySteps []script
 	if len(hosts) >= 2 && r.Chance(20) {
 		a, b := 0, 1
 		near := offerHold - 2*time.Second
-		switch r.Intn(7) {
+		switch r.Intn(8) {
+		case 7: // a foreign host starts answering ARP for the offered address after the OFFER: the REQUEST must be refused
+			plan = []planStep{{0, a, "discover"}, {time.Second, a, "+conflict"}, {0, a, "selecting"}, {time.Second, a, "discover"}, {time.Second, b, "discover"}}
 		case 5: // the REQUEST arrives just inside the hold time: looked up before, confirmed after the hold has run out (the ARP probe lies in between)
 			plan = []planStep{{0, a, "discover"}, {offerHold + Pick(r, 100*time.Millisecond, 300*time.Millisecond, 500*time.Millisecond), a, "selecting"}, {time.Second, b, "discover"}, {time.Second, a, "renewing"}}
 		case 6: // a renewal arriving just inside the lease time, then a competitor
@@ -381,6 +392,13 @@ func srvScript(t *testing.T, r *Rng, s *Stream, c *SrvConf, replaySteps []script
 		}
 		time.Sleep(gap)
 		h := hosts[hi]
+		if forced == "+conflict" { // not a message: from now on a foreign host answers ARP for what this host was offered
+			if h.lastOff != nil && h.staticIP == nil {
+				env.Resp[IPU32(h.lastOff)] = &Responder{MAC: net.HardwareAddr{6, 6, 8, 0, 0, 1}, Delay: 20 * time.Millisecond}
+				s.Count("responder-appears")
+			}
+			continue
+		}
 		xid++
 		var frame []byte
 		kind := ""
